@@ -227,6 +227,14 @@ class AppSystem(object):
         except vclock.Livelock as err:
             self.errors.append("livelock:%s" % err)
             raise
+        # at rest in this instant: a transaction that has delivered its outcome (state COMPLETED / ABORTED) holds no timer
+        for (when, n, t) in vclock.pending_tasks():
+            if getattr(t, "state", None) in (6, 7) and type(t).__name__ in ("ClientSSM", "ServerSSM"):
+                stale = getattr(self, "stale_timers", None)
+                if stale is None:
+                    stale = self.stale_timers = []
+                if len(stale) < 4:
+                    stale.append((round(vclock.clock.now, 6), type(t).__name__, "COMPLETED" if t.state == 6 else "ABORTED", round(when, 6)))
 
     def menu(self):
         m = []
